@@ -119,6 +119,34 @@ def load_known_findings(path):
     return out
 
 
+# ---- every specialised matrix whose transactions a property talks about runs for that property too ----
+# (seeds C02-c, C06-c and C14-c were first missed only because the generator that exposes them lived in another
+#  property's scenario list)
+ADMIN_ROLE_TXS = ['UpdateOwner', 'AcceptOwner', 'UpdateAttesterManager', 'UpdatePauser', 'UpdateTokenController']
+REGISTRY_TXS = ['EnableAttester', 'DisableAttester', 'AddRemoteTokenMessenger', 'RemoveRemoteTokenMessenger', 'LinkTokenPair',
+                'UnlinkTokenPair', 'SetMaxBurnAmountPerMessage']
+SCENARIO_TXS = {
+    'recvmatrix': (['ReceiveMessage'], ''), 'depmatrix': (DEPOSITS, ''), 'replace': (REPLACERS, ''),
+    'faults': (DEPOSITS + ['ReceiveMessage'], ''), 'nonces': (PRODUCERS + REPLACERS, ''),
+    'pause': (['PauseBurningAndMinting', 'UnpauseBurningAndMinting', 'PauseSendingAndReceivingMessages', 'UnpauseSendingAndReceivingMessages'], ''),
+    'roles': (ADMIN_ROLE_TXS, 'lifecycle'), 'attesters': (['EnableAttester', 'DisableAttester', 'UpdateSignatureThreshold'], ''),
+    'registry': (REGISTRY_TXS, ''),
+}
+for _pid, _spec in PROPS.items():
+    _have = set(sc[0] for sc in _spec['scenarios'])
+    _txs = set(s for (k, s) in _spec.get('ops', []) if k == 'tx')
+    for _scn, (_ts, _arg) in SCENARIO_TXS.items():
+        if _scn not in _have and _txs & set(_ts):
+            _spec['scenarios'].append((_scn, 400, 4000, _arg))
+    if 'bulk' not in _have and any(k in ('genesis-export', 'genesis-init') or (k == 'query' and (s or '').endswith('s') and s != 'Roles') for (k, s) in _spec.get('ops', [])):
+        _spec['scenarios'].append(('bulk', 300, 3000, ''))
+
+
+for _scn in ['recvmatrix', 'depmatrix', 'replace', 'registry', 'attesters', 'bulk']:
+    if _scn not in set(sc[0] for sc in PROPS['C20']['scenarios']):
+        PROPS['C20']['scenarios'].append((_scn, 400, 4000, ''))
+
+
 def relevant_op(pid, kind, sub):
     for (k, s) in PROPS[pid].get('ops', []):
         if k == kind and (s is None or s == sub or s == ''):
